@@ -89,6 +89,7 @@ func c05Target(c *c05Case) (reflect.Value, bool) {
 				ok = false
 			}
 		}()
+		c05EnvNewBuild()
 		rv = reflect.New(c05StructType(c.S))
 		return true
 	}()
@@ -107,6 +108,7 @@ func c05Run(ep string, d *c05JV, target any) c05Outcome {
 }
 
 func c05InterpJSON(c c05Case) (v kit.Verdict) {
+	defer c05EnvCleanup()
 	target, ok := c05Target(&c)
 	if !ok || c.D.T != "obj" {
 		return kit.Verdict{Excluded: true, Classes: []string{"unbuildable-shape"}}
@@ -135,7 +137,7 @@ func c05Repeat(o *c05Oracle, c *c05Case, first reflect.Value, what string, run f
 	if c05Scribble(first) {
 		o.class("repeat:result-had-slices-maps-pointers")
 	}
-	t2, _ := c05Target(c)
+	t2 := reflect.New(first.Type())
 	out2 := run(t2.Interface())
 	switch {
 	case out2.Panic != nil:
@@ -252,11 +254,12 @@ func TestVerif_C05_json(t *testing.T) {
 // ---- P3: YAML agreement ----
 
 func c05InterpYAML(c c05Case) (v kit.Verdict) {
+	defer c05EnvCleanup()
 	tj, ok := c05Target(&c)
 	if !ok || c.D.T != "obj" {
 		return kit.Verdict{Excluded: true, Classes: []string{"unbuildable-shape"}}
 	}
-	ty, _ := c05Target(&c)
+	ty := reflect.New(tj.Type().Elem()) // same type: env= names are part of the tags
 	js := c.D.JSON()
 	ys := c.D.YAML(c.Y)
 	oj := c05Call(func() error { return mapping.UnmarshalJsonBytes([]byte(js), tj.Interface()) })
@@ -414,13 +417,14 @@ func c05GenConfCase(rt *rapid.T) c05ConfCase {
 }
 
 func c05InterpConf(c c05ConfCase) (v kit.Verdict) {
+	defer c05EnvCleanup()
 	cc := c05Case{S: c.S, D: c.D}
 	t1, ok := c05Target(&cc)
 	if !ok || c.D.T != "obj" || c.D2.T != "obj" {
 		return kit.Verdict{Excluded: true, Classes: []string{"unbuildable-shape"}}
 	}
-	t2, _ := c05Target(&cc)
-	t3, _ := c05Target(&cc)
+	t2 := reflect.New(t1.Type().Elem())
+	t3 := reflect.New(t1.Type().Elem())
 	j1, j2, y2 := c.D.JSON(), c.D2.JSON(), c.D2.YAML(c.Y)
 	o1 := c05Call(func() error { return conf.LoadFromJsonBytes([]byte(j1), t1.Interface()) })
 	o2 := c05Call(func() error { return conf.LoadFromJsonBytes([]byte(j2), t2.Interface()) })
